@@ -161,11 +161,14 @@ func (vm *VM) SetReturnValue(value Element) {
 	}
 }
 
-func (vm *VM) BeginScope() {
+// BeginScope - begin a new scope on current module, and return the Scope object
+// on which EndScope() should be called afterwards
+func (vm *VM) BeginScope() *Scope {
 	scope := vm.getCurrentScope()
 	if scope != nil {
 		scope.BeginScope()
 	}
+	return scope
 }
 
 // EndScope - end current scope
